@@ -20,6 +20,7 @@ WITNESS = {
   'ccpbin': ('samlang-optimization', 'crates/samlang-optimization/src/conditional_constant_propagation.rs', 'wx/witness/samlang_optimization_ccp.rs', 'verif_witness_search'),
   'strlit': ('samlang-printer', 'crates/samlang-printer/src/source_printer.rs', 'wx/witness/samlang_printer_source_printer.rs', 'verif_witness_search'),
   'errgate': ('samlang-compiler', 'crates/samlang-compiler/src/lib.rs', 'wx/witness/samlang_compiler_lib.rs', 'verif_witness_search'),
+  'dce': ('samlang-optimization', 'crates/samlang-optimization/src/dead_code_elimination.rs', 'wx/witness/samlang_optimization_dce.rs', 'verif_witness_search'),
   'depgraph': ('samlang-services', 'crates/samlang-services/src/dep_graph.rs', 'wx/witness/samlang_services_dep_graph.rs', 'verif_witness_search'),
 }
 
